@@ -15,6 +15,8 @@ package main
 import (
 	"encoding/json"
 	"fmt"
+	"os"
+	"runtime/pprof"
 
 	"verifharness/hx"
 	"verifharness/lsx"
@@ -68,6 +70,11 @@ func corpus() []*lsx.Hist {
 }
 
 func main() {
+	if pf := os.Getenv("VERIF_PROF"); pf != "" {
+		f, _ := os.Create(pf)
+		_ = pprof.StartCPUProfile(f)
+		defer pprof.StopCPUProfile()
+	}
 	run := hx.Start("C11", "Aurora.C11.Corr",
 		"histories of 5..40 operations (Put in the four modes + an invalid one, single and batched with in-call duplicates, with/without a root hash in the context; Get/GetMulti in every mode; Has/HasMulti; Set sync/remove/pin/unpin, single and batched) over a 6-8 address universe that shares proximity bins, clock pinned per operation (also 0, negative, backwards), capacity 2^40; non-trivial = history that stores, finds, removes and re-stores at least one chunk or contains a multi-chunk put; distinct by (base key, operations)")
 
@@ -145,7 +152,7 @@ func main() {
 		run.Replay = ""
 	}
 
-	for i := 0; i < run.N(260, 4000); i++ {
+	for i := 0; i < run.N(150, 3000); i++ {
 		g, err := lsx.NewGen(run.R.Fork(uint64(i)), "api", bigCap, false)
 		if err != nil {
 			panic(err)
@@ -155,7 +162,7 @@ func main() {
 		g.Steps(5 + g.R.Intn(36))
 		// twin: the last multi-chunk put of the history
 		for k, op := range g.H.Ops {
-			if op.K == "put" && len(op.Chs) > 1 {
+			if op.K == "put" && len(op.Chs) > 1 && op.Mode <= 3 {
 				g.H.Twin = k
 			}
 		}
